@@ -68,14 +68,20 @@ int64_t evaluate_array_ref(
     }
 
     // 多次元メンバ配列アクセスの処理: obj.member[i][j]
+    // (any rank: walk down the chain of subscripts to the member access)
+    const ASTNode *member_base = node->left.get();
+    while (member_base && member_base->node_type == ASTNodeType::AST_ARRAY_REF) {
+        member_base = member_base->left.get();
+    }
     if (node->left && node->left->node_type == ASTNodeType::AST_ARRAY_REF &&
-        node->left->left &&
-        node->left->left->node_type == ASTNodeType::AST_MEMBER_ACCESS) {
+        member_base &&
+        member_base->node_type == ASTNodeType::AST_MEMBER_ACCESS &&
+        member_base->left) {
 
         debug_msg(DebugMsgId::EXPR_EVAL_MULTIDIM_MEMBER_ARRAY_ACCESS, "");
-        // obj.member[i][j] の場合
-        std::string obj_name = node->left->left->left->name;
-        std::string member_name = node->left->left->name;
+        // obj.member[i][j]... の場合
+        std::string obj_name = member_base->left->name;
+        std::string member_name = member_base->name;
         debug_msg(DebugMsgId::EXPR_EVAL_MEMBER_ACCESS_DETAILS, obj_name.c_str(),
                   member_name.c_str());
 
